@@ -5,6 +5,12 @@
 
 package authkeys
 
+// A key set built by NewSyncAuthKeySet always has its map (checked on the constructor below).
+//@ objinv SyncAuthKeySet : self.keySet != nil
+//@ func NewSyncAuthKeySet() (s *SyncAuthKeySet)
+//@   property C05 C07
+//@   ensures s != nil && s.keySet != nil
+
 //@ func (s *SyncAuthKeySet) RemoveKey(pk keys.DHPublicKey)
 //@   property C05 C07
 //@   atomic
@@ -15,7 +21,6 @@ package authkeys
 //@ func (s *SyncAuthKeySet) AddKey(pk keys.DHPublicKey)
 //@   property C05 C07
 //@   atomic
-//@   requires s.keySet != nil
 //@   modifies mapof(s.keySet)
 //@   ensures has(s.keySet, pk)
 //@   ensures forall k keys.DHPublicKey :: k != pk ==> (has(s.keySet, k) <==> old(has(s.keySet, k)))
